@@ -559,6 +559,10 @@ func Produce(t *Target, in, dep string) map[string]tree.Tree {
 			if n >= 4 {
 				filler = strings.Repeat(h, (int(h[1])%40)+1)
 			}
+			if strings.HasPrefix(path.Base(o.Path), "big") {
+				// "big*": a few MiB, so that copying it takes many chunks / system calls
+				filler = strings.Repeat(h+"\n", 40*1024+int(h[1])%4096)
+			}
 			res[o.Path] = tree.File([]byte(prov+filler), false)
 			continue
 		}
